@@ -283,6 +283,46 @@ def run(prop, tier):
         mspec = [{"name": "A", "cpus": mcpus, "procs": [{"pid": 100, "threads": [101, 102]}]}]
         mlayout = Layout(mspec)
         mstates, E = build_graph(ctx, scratch, mlayout, "view")
+        # ---- tracking-mode sweep: every documented region of every model held open while its thread cools down, pauses, warms up
+        # and runs again: the thread row shows it exactly in the states of its tracking mode, the CPU row exactly while the thread runs
+        def mode_sweep():
+            X0 = Ev(0, "OHx", i32(0, 101) + i64(0))
+            sw_spec = [{"name": "A", "cpus": [(0, 0)], "procs": [{"pid": 100, "threads": [101]}]}]
+            steps = [("running", None), ("cooling", "OHc"), ("paused", "OHp"), ("warming", "OHw"), ("running", "OHr")]
+            nsw = 0
+            for model in ("nosv", "nanos6", "nodes", "mpi", "tampi", "openmp", "kernel"):
+                ents = sorted((k, g) for k, g in gold["enter"].items() if k[0] == cat[model]["char"] and g["type"] in MODE)
+                if not ents:
+                    continue
+                system = emusrv.System(sw_spec, require={"ovni": cat["ovni"]["version"], model: cat[model]["version"]})
+                pool = ServerPool(exe, system.write(scratch.sub("sweep-" + model)), ["-l"])
+                try:
+                    for mcv, g in ents:
+                        hist = [X0, Ev(0, mcv)]
+                        for st, ev in steps:
+                            if ev:
+                                hist = hist + [Ev(0, ev)]
+                            hres, _ = pool.local.expand(hist, [], echo=True)
+                            nsw += 1
+                            if not hres.get("ok"):
+                                break       # (acceptance in this state is C08's subject)
+                            disp = {}
+                            for (n, row, tm, ty, val) in pool.local.init_lines + hres["lines"]:
+                                disp[(n, row, ty)] = val
+                            want_t = g["value"] if mode_ok(MODE[g["type"]], st) else 0
+                            want_c = g["value"] if st == "running" else 0
+                            got_t, got_c = disp.get(("thread", 1, g["type"]), 0), disp.get(("cpu", 1, g["type"]), 0)
+                            if got_t != want_t or got_c != want_c:
+                                ctx.violation("model %s: region %s (%s) open, thread %s: thread row type %d shows %d (expected %d), CPU row shows %d (expected %d)" % (
+                                    model, mcv, g["label"], st, g["type"], got_t, want_t, got_c, want_c),
+                                    {"engine": "E3 emu_server", "check": "mode-sweep", "model": model, "history": [e.line() for e in hist]},
+                                    {"kind": "mode-sweep", "mcv": mcv, "state": st})
+                                break
+                finally:
+                    pool.close()
+            ctx.add(evaluations=nsw, transitions=nsw)
+            ctx.part("tracking-mode-sweep", probes=nsw)
+        mode_sweep()
         mode_notes = []
         for g in groups:
             if ctx.out_of_time(0.85):
@@ -358,45 +398,6 @@ def run(prop, tier):
             for n in mode_notes:
                 ctx.violation("tracking mode documented in thread.pcf differs from the reference table: " + n,
                               {"engine": "E3", "check": "pcf-mode", "note": n}, {"kind": "pcf-mode", "note": n})
-        # ---- tracking-mode sweep: every documented region of every model held open while its thread cools down, pauses, warms up
-        # and runs again: the thread row shows it exactly in the states of its tracking mode, the CPU row exactly while the thread runs
-        if not ctx.out_of_time(0.9):
-            X0 = Ev(0, "OHx", i32(0, 101) + i64(0))
-            sw_spec = [{"name": "A", "cpus": [(0, 0)], "procs": [{"pid": 100, "threads": [101]}]}]
-            steps = [("running", None), ("cooling", "OHc"), ("paused", "OHp"), ("warming", "OHw"), ("running", "OHr")]
-            nsw = 0
-            for model in ("nosv", "nanos6", "nodes", "mpi", "tampi", "openmp", "kernel"):
-                ents = sorted((k, g) for k, g in gold["enter"].items() if k[0] == cat[model]["char"] and g["type"] in MODE)
-                if not ents:
-                    continue
-                system = emusrv.System(sw_spec, require={"ovni": cat["ovni"]["version"], model: cat[model]["version"]})
-                pool = ServerPool(exe, system.write(scratch.sub("sweep-" + model)), ["-l"])
-                try:
-                    for mcv, g in ents:
-                        hist = [X0, Ev(0, mcv)]
-                        for st, ev in steps:
-                            if ev:
-                                hist = hist + [Ev(0, ev)]
-                            hres, _ = pool.local.expand(hist, [], echo=True)
-                            nsw += 1
-                            if not hres.get("ok"):
-                                break       # (acceptance in this state is C08's subject)
-                            disp = {}
-                            for (n, row, tm, ty, val) in pool.local.init_lines + hres["lines"]:
-                                disp[(n, row, ty)] = val
-                            want_t = g["value"] if mode_ok(MODE[g["type"]], st) else 0
-                            want_c = g["value"] if st == "running" else 0
-                            got_t, got_c = disp.get(("thread", 1, g["type"]), 0), disp.get(("cpu", 1, g["type"]), 0)
-                            if got_t != want_t or got_c != want_c:
-                                ctx.violation("model %s: region %s (%s) open, thread %s: thread row type %d shows %d (expected %d), CPU row shows %d (expected %d)" % (
-                                    model, mcv, g["label"], st, g["type"], got_t, want_t, got_c, want_c),
-                                    {"engine": "E3 emu_server", "check": "mode-sweep", "model": model, "history": [e.line() for e in hist]},
-                                    {"kind": "mode-sweep", "mcv": mcv, "state": st})
-                                break
-                finally:
-                    pool.close()
-            ctx.add(evaluations=nsw, transitions=nsw)
-            ctx.part("tracking-mode-sweep", probes=nsw)
         ctx.cov["rule"] = ("per quantity group: product of the TLC thread/CPU graph (2 threads, physical CPUs + virtual CPU) and the "
                            "value state of both threads; every thread/affinity event and every value event (clock step 1 and 0) probed in "
                            "every state; thread and CPU rows of the group's Paraver types compared after every accepted event")
